@@ -187,6 +187,8 @@ def build(v):
         n = v["n"]
         if n is None:
             return R.from_rotvec([0.1, 0.2, 0.3])
+        if n == 0:
+            return R.from_quat(np.zeros((0, 4)))       # an empty stack of rotations
         return R.from_rotvec([[0.1 * (i + 1), 0.2, -0.3] for i in range(n)])
     if k == "func":
         return FUNCS[v["name"]]
@@ -280,6 +282,8 @@ def doc_valid(doc, v):
     accept/reject, every other clause still applies"""
     kind, cat = doc[0], category(v)
     if kind == "orientation":
+        if cat == "rotation" and v.get("n") == 0 and not v.get("kind"):
+            return False           # documented: a Rotation "with length 1 or m"; an object path has >= 1 step
         return cat in ("none", "rotation")
     if kind == "member":
         return cat == "str" and v["v"] in doc[1]
@@ -360,7 +364,7 @@ def vkind(doc, v):
     if k == "obj":
         return v["name"]
     if k == "rot":
-        return "Rotation"
+        return "empty-Rotation" if v.get("n") == 0 and not v.get("kind") else "Rotation"
     if k == "func":
         return "callable-" + v["name"]
     if k == "raw":
@@ -455,7 +459,8 @@ def battery_types():
         vs.append({"k": "str", "v": s})
     for n in ("dict", "emptydict", "set", "object", "callable", "bytes", "range", "gen"):
         vs.append({"k": "obj", "name": n})
-    vs += [{"k": "rot", "n": None}, {"k": "rot", "n": 1}, {"k": "rot", "n": 3}, {"k": "rot", "n": 2}, {"k": "rot", "n": 17}]
+    vs += [{"k": "rot", "n": None}, {"k": "rot", "n": 1}, {"k": "rot", "n": 3}, {"k": "rot", "n": 2}, {"k": "rot", "n": 17},
+           {"k": "rot", "n": 0}]
     vs += [{"k": "rot", "n": None, "kind": kd} for kd in ("identity", "q90z", "flip180x", "turns", "mixed")]
     for n in FUNCS:
         vs.append({"k": "func", "name": n})
